@@ -31,8 +31,73 @@ pub enum Term {
     RevSkip,
     /// by_ref().find(|_| false) visits everything and leaves an exhausted iterator
     FindNone,
+    /// find / rfind called directly on the iterator with a predicate that accepts the k-th item it is shown
+    FindAt(u8),
+    RfindAt(u8),
+    /// position / rposition called directly, accepting the k-th item shown
+    PositionAt(u8),
+    RpositionAt(u8),
+    /// all(|_| true) and any(|_| false) called directly: both visit everything
+    All,
+    Any,
+    /// collect::<Vec<_>>() called directly
+    Collect,
 }
-pub const TERMS: [Term; 9] = [Term::Count, Term::Last, Term::Fold, Term::Rfold, Term::ForEach, Term::RevThenFwd, Term::SkipStep, Term::RevSkip, Term::FindNone];
+pub const TERMS: [Term; 24] = [
+    Term::Count,
+    Term::Last,
+    Term::Fold,
+    Term::Rfold,
+    Term::ForEach,
+    Term::RevThenFwd,
+    Term::SkipStep,
+    Term::RevSkip,
+    Term::FindNone,
+    Term::FindAt(0),
+    Term::FindAt(1),
+    Term::FindAt(2),
+    Term::RfindAt(0),
+    Term::RfindAt(1),
+    Term::RfindAt(2),
+    Term::PositionAt(0),
+    Term::PositionAt(1),
+    Term::PositionAt(2),
+    Term::RpositionAt(0),
+    Term::RpositionAt(1),
+    Term::RpositionAt(2),
+    Term::All,
+    Term::Any,
+    Term::Collect,
+];
+
+/// What a terminal must visit (in order), what it must return, and what must be left in the iterator
+/// (None = the iterator was consumed), for the ideal remainder `rest`.
+pub struct TermIdeal {
+    pub visited: Vec<Tok>,
+    pub left: Option<Vec<Tok>>,
+    /// position / rposition result, count result
+    pub index: Option<Option<usize>>,
+}
+pub fn jump_ideal(term: Term, rest: &[Tok]) -> Option<TermIdeal> {
+    let n = rest.len();
+    match term {
+        Term::FindAt(k) | Term::PositionAt(k) => {
+            let k = k as usize;
+            let hit = k < n;
+            let visited: Vec<Tok> = if term == Term::FindAt(k as u8) { rest.get(k).copied().into_iter().collect() } else { rest.iter().take(k + 1).copied().collect() };
+            Some(TermIdeal { visited, left: Some(if hit { rest[k + 1..].to_vec() } else { Vec::new() }), index: Some(if hit { Some(k) } else { None }) })
+        }
+        Term::RfindAt(k) | Term::RpositionAt(k) => {
+            let k = k as usize;
+            let hit = k < n;
+            let visited: Vec<Tok> = if term == Term::RfindAt(k as u8) { if hit { vec![rest[n - 1 - k]] } else { Vec::new() } } else { rest.iter().rev().take(k + 1).copied().collect() };
+            Some(TermIdeal { visited, left: Some(if hit { rest[..n - 1 - k].to_vec() } else { Vec::new() }), index: Some(if hit { Some(n - 1 - k) } else { None }) })
+        }
+        Term::All | Term::Any => Some(TermIdeal { visited: rest.to_vec(), left: Some(Vec::new()), index: None }),
+        Term::Collect => Some(TermIdeal { visited: rest.to_vec(), left: None, index: None }),
+        _ => None,
+    }
+}
 
 pub fn enc_seq(seq: &[Call], term: Term) -> String {
     let mut s = String::new();
@@ -240,6 +305,89 @@ where
                 cs.fail("iter:find", "the iterator is not exhausted after find(|_| false)".into());
             }
             yielded.extend(seen);
+        }
+        Term::FindAt(_) | Term::RfindAt(_) | Term::PositionAt(_) | Term::RpositionAt(_) | Term::All | Term::Any | Term::Collect => {
+            let rest: Vec<Tok> = ideal.iter().copied().collect();
+            let exp = jump_ideal(term, &rest).unwrap();
+            let mut seen: Vec<Tok> = Vec::new();
+            let mut shown = 0usize;
+            let mut index: Option<Option<usize>> = None;
+            let mut left: Option<Vec<Tok>> = None;
+            let mut rest_of = |it: &mut I, tok: &mut T, cs: &mut Case| -> Vec<Tok> {
+                let l = it.len();
+                let v: Vec<Tok> = it.map(|x| tok(x)).collect();
+                if l != v.len() {
+                    cs.fail("iter:len", format!("after {:?}: len() = {} but {} items followed", term, l, v.len()));
+                }
+                v
+            };
+            match term {
+                Term::FindAt(k) => {
+                    let f = it.find(|_| {
+                        shown += 1;
+                        shown == k as usize + 1
+                    });
+                    index = Some(f.as_ref().map(|_| k as usize));
+                    seen.extend(f.map(&mut tok));
+                    left = Some(rest_of(&mut it, &mut tok, cs));
+                }
+                Term::RfindAt(k) => {
+                    let f = it.rfind(|_| {
+                        shown += 1;
+                        shown == k as usize + 1
+                    });
+                    index = Some(f.as_ref().map(|_| rest.len().wrapping_sub(1 + k as usize)));
+                    seen.extend(f.map(&mut tok));
+                    left = Some(rest_of(&mut it, &mut tok, cs));
+                }
+                Term::PositionAt(k) => {
+                    index = Some(it.position(|x| {
+                        seen.push(tok(x));
+                        seen.len() == k as usize + 1
+                    }));
+                    left = Some(rest_of(&mut it, &mut tok, cs));
+                }
+                Term::RpositionAt(k) => {
+                    index = Some(it.rposition(|x| {
+                        seen.push(tok(x));
+                        seen.len() == k as usize + 1
+                    }));
+                    left = Some(rest_of(&mut it, &mut tok, cs));
+                }
+                Term::All => {
+                    let r = it.all(|x| {
+                        seen.push(tok(x));
+                        true
+                    });
+                    if !r {
+                        cs.fail("iter:all", "all(|_| true) returned false".into());
+                    }
+                    left = Some(rest_of(&mut it, &mut tok, cs));
+                }
+                Term::Any => {
+                    let r = it.any(|x| {
+                        seen.push(tok(x));
+                        false
+                    });
+                    if r {
+                        cs.fail("iter:any", "any(|_| false) returned true".into());
+                    }
+                    left = Some(rest_of(&mut it, &mut tok, cs));
+                }
+                Term::Collect => {
+                    let v: Vec<I::Item> = it.collect();
+                    seen.extend(v.into_iter().map(&mut tok));
+                }
+                _ => unreachable!(),
+            }
+            if seen != exp.visited || (exp.index.is_some() && index != exp.index) || left != exp.left {
+                cs.fail(
+                    "iter:find-position",
+                    format!("{:?}: saw {:x?} result {:?} left {:x?}; expected {:x?} result {:?} left {:x?}", term, seen, index, left, exp.visited, exp.index, exp.left),
+                );
+            }
+            yielded.extend(seen);
+            yielded.extend(left.unwrap_or_default());
         }
     }
     yielded
